@@ -20,6 +20,8 @@ def check(run):
     # not silently tokenized as something else (the parser-level judgement above takes the tokens the engine reports as given)
     import lexfam, os, tlc
     lexfam.validate_texts(run, "charcorrupt", os.path.join(tlc.WORK, "parse-trace-charcorrupt.ndjson"), "C05")
+    if thorough:
+        pf.simulate(run, alphabet="DelCallMap")
     run.exhaustive = False
     run.assumptions += ["token strings are laid out with single spaces", "hook H1 reports the token sequence the parser sees",
                         "the lenient readings the property allows (`;` omitted or trailing, trailing comma in list/map) and an unregistered operator in prefix position are MayAccept",
